@@ -68,6 +68,8 @@ def _toml_values(rng):
         'number_of_neighbors': rng.choice([0, 20]),
         'largest_neighborhood': rng.choice([0, 20]),
         'maximum_attempts': rng.choice([0, 100]),
+        # a parameter like the others as far as files are concerned (a file written by another release holds another value)
+        'version': rng.choice(['3.2.12', '3.2.14a', 'development version of 2024-07']),
     }
     keys = sorted(vals)
     chosen = rng.sample(keys, rng.randrange(1, len(keys) + 1))
